@@ -179,6 +179,18 @@ def open_sparse(data):
     return SparseDisk(io.BytesIO(data))
 
 
+def open_vmdk_fh(data):
+    from dissect.hypervisor.disk.vmdk import VMDK
+
+    return VMDK(io.BytesIO(data))
+
+
+def open_envelope_noverify(data):
+    from dissect.hypervisor.util.envelope import Envelope
+
+    return Envelope(io.BytesIO(data), verify=False)
+
+
 def open_vmdk_descriptor(data):
     from dissect.hypervisor.disk.vmdk import VMDK
 
@@ -233,7 +245,8 @@ def byte_gates():
         "hds.signature.v2": (lambda: base_hds(2), 0, 16, "<", lambda v: v in _HDS_SIGS, open_hds),
         "vmdk.kdmv.magic": (lambda: base_vmdk("kdmv"), 0, 4, "<", lambda v: v in _VMDK_MAGICS, open_sparse),
         "vmdk.cowd.magic": (lambda: base_vmdk("cowd"), 0, 4, "<", lambda v: v in _VMDK_MAGICS, open_sparse),
-        "vmdk.sesparse.magic": (lambda: base_vmdk("sesparse"), 0, 4, "<", lambda v: v in _VMDK_MAGICS, open_sparse),
+        "vmdk.sesparse.magic": (lambda: base_vmdk("sesparse"), 0, 8, "<", lambda v: v == 0xCAFEBABE, open_sparse),
+        "vmdk.sesparse.magic.vmdk": (lambda: base_vmdk("sesparse"), 0, 8, "<", lambda v: v == 0xCAFEBABE or (v & 0xFFFFFFFF) not in _VMDK_MAGICS, open_vmdk_fh),
         "vmdk.descriptor-extent.magic": (lambda: base_vmdk("kdmv"), 0, 4, "<", lambda v: v in _VMDK_MAGICS, open_vmdk_descriptor),
         "hyperv.header.signature": (lambda: hv, 0, 4, "<", lambda v: v == 0x01282014, open_hyperv),
         "hyperv.header.version": (lambda: hv, 10, 4, "<", lambda v: v == 0x400, open_hyperv),
@@ -243,6 +256,9 @@ def byte_gates():
         "envelope.magic": (base_envelope, 0, 21, "<", lambda v: v == int.from_bytes(b"DataTransformEnvelope", "little"), open_envelope),
         "envelope.version": (base_envelope, 508, 4, "<", lambda v: v == 2, open_envelope),
         "envelope.aead_footer.version": (base_envelope, len(base_envelope()) - 4, 4, "<", lambda v: v == 1, open_envelope),
+        "envelope.magic.noverify": (base_envelope, 0, 21, "<", lambda v: v == int.from_bytes(b"DataTransformEnvelope", "little"), open_envelope_noverify),
+        "envelope.version.noverify": (base_envelope, 508, 4, "<", lambda v: v == 2, open_envelope_noverify),
+        "envelope.aead_footer.version.noverify": (base_envelope, len(base_envelope()) - 4, 4, "<", lambda v: v == 1, open_envelope_noverify),
     }
     return g
 
@@ -251,10 +267,11 @@ _HDS_SIGS = {int.from_bytes(bhdd.SIG_V1, "little"), int.from_bytes(bhdd.SIG_V2, 
 _VMDK_MAGICS = {int.from_bytes(b"KDMV", "little"), int.from_bytes(b"COWD", "little"), 0xCAFEBABE}
 MAGIC_GATES = ["qcow2.magic", "vhdx.file_identifier", "vhdx.current_header", "vhdx.region_table_1", "vhdx.region_table_2",
                "vhdx.metadata_table", "vdi.signature", "hds.signature.v1", "hds.signature.v2", "vmdk.kdmv.magic", "vmdk.cowd.magic",
-               "vmdk.sesparse.magic", "vmdk.descriptor-extent.magic", "hyperv.header.signature", "hyperv.replay_log.signature",
+               "vmdk.sesparse.magic", "vmdk.sesparse.magic.vmdk", "vmdk.descriptor-extent.magic", "envelope.magic.noverify", "hyperv.header.signature", "hyperv.replay_log.signature",
                "hyperv.object_table.signature", "hyperv.key_table.signature", "envelope.magic"]
 VALUE_GATES = ["qcow2.version", "qcow2.cluster_bits", "qcow2.crypt_method", "qcow2.compression_type=zstd", "qcow2.compression_type>=2",
-               "hyperv.header.version", "envelope.version", "envelope.aead_footer.version"]
+               "hyperv.header.version", "envelope.version", "envelope.aead_footer.version", "envelope.version.noverify",
+               "envelope.aead_footer.version.noverify"]
 SEMANTIC_GATES = ["qcow2.data_file_bit", "qcow2.extl2_small_clusters", "qcow2.backing_without_object", "vhdx.missing_region",
                   "vhdx.locator_type", "vhdx.parent_missing", "hdd.image_type", "hdd.no_descriptor", "envelope.cipher_name",
                   "envelope.missing_attribute", "keystore.mode", "keysafe.identifier", "keysafe.locator_kind", "keysafe.names"]
